@@ -149,13 +149,15 @@ def mimebundle(draw):
         d["text/plain"] = draw(st.sampled_from(REPRS))
     if draw(st.sampled_from(range(6))) == 0:
         # mime types are case-insensitive; the differ lower-cases them for dispatch
-        k = draw(st.sampled_from(sorted(d)))
-        d[MIXED_CASE.get(k, k.upper())] = d.pop(k)
+        ks = sorted(k for k in d if k in MIXED_CASE)      # string-valued mimes only: the schema's JSON pattern is case-sensitive
+        if ks:
+            k = draw(st.sampled_from(ks))
+            d[MIXED_CASE[k]] = d.pop(k)
     return d
 
 
-MIXED_CASE = {"text/plain": "text/Plain", "text/html": "text/HTML", "image/png": "image/PNG", "application/json": "Application/JSON",
-              "image/svg+xml": "image/SVG+xml"}
+MIXED_CASE = {"text/plain": "text/Plain", "text/html": "text/HTML", "image/png": "image/PNG", "image/svg+xml": "image/SVG+xml",
+              "application/javascript": "Application/JavaScript"}
 
 
 @st.composite
@@ -497,7 +499,7 @@ def _forced_conflict(draw, base):
     shape = draw(st.sampled_from(["del_vs_edit", "edit_vs_del", "both_edit_source", "both_edit_outputs", "both_edit_meta",
                                   "both_insert_same_pos", "both_insert_similar", "insert_next_to_edit", "insert_next_to_del",
                                   "both_append_nonl", "both_attach", "both_nbmeta", "both_minor", "both_del", "both_ec",
-                                  "both_same_edit"]))
+                                  "both_same_edit", "both_edit_same_output", "both_edit_same_output"]))
     usedl, usedr = _ids(l), _ids(r)
     if n == 0 or shape in ("both_insert_same_pos", "both_insert_similar"):
         i = draw(st.integers(0, n))
@@ -534,6 +536,27 @@ def _forced_conflict(draw, base):
     elif shape == "both_ec":
         l["cells"][i] = draw(edit_cell(c, minor, ["ec", "outputs"]))
         r["cells"][i] = draw(edit_cell(c, minor, ["ec", "outputs"]))
+    elif shape == "both_edit_same_output":
+        if c["cell_type"] != "code":
+            l["cells"][i] = draw(edit_cell(c, minor, ["source", "metadata"]))
+            r["cells"][i] = draw(edit_cell(c, minor, ["source", "metadata"]))
+        else:
+            if not c["outputs"]:
+                o = draw(output())
+                for nb_ in (base, l, r):
+                    nb_["cells"][i]["outputs"].append(copy.deepcopy(o))
+            outs = base["cells"][i]["outputs"]
+            j = draw(st.integers(0, len(outs) - 1))
+            for side in (l, r):
+                so = side["cells"][i]["outputs"]
+                so[j] = draw(edit_output(outs[j]))
+                extra = draw(st.sampled_from(["none", "none", "append", "insert_before", "del_other"]))
+                if extra == "append":
+                    so.append(draw(output()))
+                elif extra == "insert_before":
+                    so.insert(j, draw(output()))
+                elif extra == "del_other" and len(so) > 1:
+                    del so[(j + 1) % len(so)]
     elif shape == "both_attach":
         l["cells"][i] = draw(edit_cell(c, minor, ["attach"]))
         r["cells"][i] = draw(edit_cell(c, minor, ["attach"]))
@@ -588,14 +611,21 @@ def triple(draw, max_cells=5, forced=None):
 _validators = {}
 
 
-def _validator(minor):
+def _validator(minor, part="nb"):
+    """Draft4 validator for one part of the v4.<minor> schema. Cells and outputs are validated against the definition their
+    cell_type / output_type selects (instead of the schema's oneOf), which gives the same verdict with readable messages."""
     import jsonschema
     import nbformat
     if minor not in _validators:
         d = os.path.dirname(nbformat.v4.__file__)
         with open(os.path.join(d, "nbformat.v4.%d.schema.json" % minor)) as f:
-            _validators[minor] = jsonschema.Draft4Validator(json.load(f))
-    return _validators[minor]
+            root = json.load(f)
+        vs = {"nb": jsonschema.Draft4Validator(root)}
+        for name in ("code_cell", "markdown_cell", "raw_cell", "stream", "error", "display_data", "execute_result"):
+            vs[name] = jsonschema.Draft4Validator({"$schema": root.get("$schema"), "definitions": root["definitions"],
+                                                    "$ref": "#/definitions/" + name})
+        _validators[minor] = vs
+    return _validators[minor][part]
 
 
 def has_duplicate_ids(nb):
@@ -611,16 +641,35 @@ def schema_errors(nb, limit=3, unique_ids=True):
     minor = nb.get("nbformat_minor")
     if not isinstance(minor, int) or isinstance(minor, bool) or minor < 0:
         return ["nbformat_minor is %r" % (minor,)]
-    v = _validator(min(minor, 5))
+    m = min(minor, 5)
     errs = []
-    for e in v.iter_errors(nb):
-        best = e
-        # descend into oneOf context for a useful message
-        while best.context:
-            best = sorted(best.context, key=lambda x: -len(x.absolute_path))[0]
-        errs.append("%s at /%s" % (best.message[:90], "/".join(str(p) for p in best.absolute_path)))
+
+    def add(v, inst, where):
+        for e in v.iter_errors(inst):
+            errs.append("%s at %s/%s" % (e.message[:100], where, "/".join(str(p) for p in e.absolute_path)))
+
+    cells = nb.get("cells")
+    if not isinstance(cells, list):
+        return ["cells is not a list"]
+    add(_validator(m), dict(nb, cells=[]), "")
+    for i, c in enumerate(cells):
+        ct = c.get("cell_type") if isinstance(c, dict) else None
+        if ct not in ("code", "markdown", "raw"):
+            errs.append("unrecognized cell_type %r at /cells/%d" % (ct, i))
+            continue
+        outs = c.get("outputs") if ct == "code" else None
+        if isinstance(outs, list):
+            add(_validator(m, ct + "_cell"), dict(c, outputs=[]), "/cells/%d" % i)
+            for j, o in enumerate(outs):
+                ot = o.get("output_type") if isinstance(o, dict) else None
+                if ot not in ("stream", "error", "display_data", "execute_result"):
+                    errs.append("unrecognized output_type %r at /cells/%d/outputs/%d" % (ot, i, j))
+                else:
+                    add(_validator(m, ot), o, "/cells/%d/outputs/%d" % (i, j))
+        else:
+            add(_validator(m, ct + "_cell"), c, "/cells/%d" % i)
         if len(errs) >= limit:
             break
     if unique_ids and has_duplicate_ids(nb):
         errs.append("duplicate cell ids")
-    return errs
+    return errs[:limit + 1]
